@@ -183,6 +183,92 @@ theorem C04_merge_invisible_discarded (b : Bool) (st : State) (r : Running)
   · exact endMergeWith_discard_epoch b st r h
   · exact endMergeWith_discard_missing b st r hu hc
 
+/-- `end_merge` on the COMMITTED register is invisible (also when deletes were committed while
+the merge ran): let `srcs` be the source entries as `merge()` received them, `target` its target
+opstamp, and let the committed register now hold those sources advanced to the current committed
+opstamp (what `commit`'s `purge_deletes` makes of them) next to any other segments. If the
+sources share one delete-cursor position after advancing to the target (`SameCursor` — true for
+committed sources, which every commit advances to the same opstamp), then swapping in the
+reconciled merged entry and re-saving meta.json publishes exactly the same documents. -/
+theorem C04_merge_invisible (st : State) (r : Running) (srcs : List Entry) (target newId c0 : Nat)
+    (hmerged : r.merged = mergeEntries st.queue srcs target newId)
+    (hwf : ∀ e ∈ srcs, e.docs.length = e.alive.length)
+    (hsame : SameCursor st.queue srcs target c0)
+    (htc : target ≤ st.committedOpstamp)
+    (hne : ∀ op ∈ st.queue, op.opstamp ≠ st.committedOpstamp)
+    (hepoch : r.epoch = st.epoch)
+    (hu : containsAll st.uncommitted r.sources = false)
+    (hc : containsAll st.committed r.sources = true)
+    (hreg : st.committed.filter (fun e => r.sources.contains e.segId)
+      = srcs.map fun e => advance st.queue e st.committedOpstamp)
+    (hpub : st.published = st.committed) :
+    (publishedUids (endMerge st r)).Perm (publishedUids st) := by
+  have hcontent := merged_content st srcs target newId c0 hwf hsame htc hne
+  unfold endMerge endMergeWith
+  simp only [hepoch, ne_eq, not_true_eq_false, if_false, if_true, hu, hc, Bool.false_eq_true]
+  unfold publishedUids
+  simp only [hpub, swapIn, List.map_append, List.flatten_append]
+  rw [hmerged, hcontent]
+  have hsplit := flatten_filter_split liveUids (fun e => r.sources.contains e.segId) st.committed
+  rw [hreg, List.map_map] at hsplit
+  exact hsplit
+
+/-- `end_merge` on the UNCOMMITTED register (policy merges inside a transaction; target = the
+stamp drawn when the merge was scheduled): the published content is untouched, and what the next
+commit (at any opstamp `T` at or above the target and the last commit) will publish is unchanged. -/
+theorem C04_merge_invisible_uncommitted (st : State) (r : Running) (srcs : List Entry)
+    (target newId c0 T : Nat)
+    (hmerged : r.merged = mergeEntries st.queue srcs target newId)
+    (hwf : ∀ e ∈ srcs, e.docs.length = e.alive.length)
+    (hsame : SameCursor st.queue srcs target c0)
+    (hT : target ≤ T) (hcT : st.committedOpstamp ≤ T)
+    (hne : ∀ op ∈ st.queue, op.opstamp ≠ st.committedOpstamp)
+    (hepoch : r.epoch = st.epoch)
+    (hu : containsAll st.uncommitted r.sources = true)
+    (hreg : st.uncommitted.filter (fun e => r.sources.contains e.segId) = srcs) :
+    publishedUids (endMerge st r) = publishedUids st ∧
+    (pendingUids (endMerge st r) T).Perm (pendingUids st T) := by
+  have hcontent := merged_pending st srcs target newId c0 T hwf hsame hT hcT hne
+  unfold endMerge endMergeWith
+  simp only [hepoch, ne_eq, not_true_eq_false, if_false, if_true, hu]
+  refine ⟨rfl, ?_⟩
+  unfold pendingUids
+  simp only [swapIn, List.map_append, List.flatten_append]
+  rw [hmerged, hcontent]
+  apply List.Perm.append_right
+  have hsplit := flatten_filter_split (fun e => liveUids (advance st.queue e T))
+    (fun e => r.sources.contains e.segId) st.uncommitted
+  rw [hreg] at hsplit
+  exact hsplit
+
+/-- the queue may have grown since the merge computed its result: operations pushed later carry
+opstamps above the target and do not change what `merge()` computed -/
+theorem C04_merge_result_stable (q0 q' : List DelOp) (srcs : List Entry) (target newId : Nat)
+    (hlater : ∀ op ∈ q', target < op.opstamp) :
+    mergeEntries (q0 ++ q') srcs target newId = mergeEntries q0 srcs target newId := by
+  have hc : ∀ c, consumed (q0 ++ q') c target = consumed q0 c target := by
+    intro c
+    unfold consumed
+    rw [List.drop_append]
+    generalize q0.drop c = A
+    have hB : ∀ B : List DelOp, (∀ op ∈ B, target < op.opstamp) →
+        (A ++ B).takeWhile (fun op => decide (op.opstamp ≤ target))
+          = A.takeWhile (fun op => decide (op.opstamp ≤ target)) := by
+      intro B hB
+      induction A with
+      | nil =>
+        cases B with
+        | nil => rfl
+        | cons b bs =>
+          have := hB b (by simp)
+          simp [List.takeWhile_cons]; omega
+      | cons a as ih =>
+        by_cases ha : a.opstamp ≤ target <;> simp [ha, ih]
+    exact hB _ (fun op hop => hlater op (List.mem_of_mem_drop hop))
+  have ha : ∀ e, advance (q0 ++ q') e target = advance q0 e target := by
+    intro e; simp [advance, hc]
+  simp [mergeEntries, ha]
+
 /-- two committed segments, a committed merge of both is computed, then a delete of key 1 is
 committed while the merge is still running -/
 def e1 : Entry := { segId := 1, docs := [⟨10, [1]⟩, ⟨11, [2]⟩], alive := [true, true], cursor := 0 }
@@ -194,12 +280,33 @@ def r0 : Running := { sources := [1, 2], merged := mergeEntries [] [e1, e2] 0 3,
 def st1 : State := commit (pushDelete st0 ⟨5, 1⟩) 6
 
 example : publishedUids st1 = [11] := by decide
+/-- the hypotheses of `C04_merge_invisible` hold in that scenario (delete committed during the
+merge, reconciliation branch taken) -/
+example : (publishedUids (endMerge st1 r0)).Perm (publishedUids st1) :=
+  C04_merge_invisible st1 r0 [e1, e2] 0 3 0
+    ((C04_merge_result_stable [] [⟨5, 1⟩] [e1, e2] 0 3 (by decide)).symm ▸ rfl)
+    (by decide) (by intro e he; simp at he; rcases he with rfl | rfl <;> decide)
+    (by decide) (by decide) (by decide) (by decide) (by decide) (by decide) (by decide)
 /-- after a rollback (new updater generation) the finished merge is refused -/
 example : r0.epoch ≠ (rollback st1).epoch ∧ endMerge (rollback st1) r0 = rollback st1 := by decide
 /-- after delete-all the sources are in no register -/
 example : containsAll (deleteAll st1).uncommitted r0.sources = false
     ∧ containsAll (deleteAll st1).committed r0.sources = false
     ∧ endMerge (deleteAll st1) r0 = deleteAll st1 := by decide
+
+/-- a policy merge of two uncommitted segments cut after a delete (cursors at the queue end) -/
+def u1 : Entry := { segId := 1, docs := [⟨10, [1]⟩], alive := [true], cursor := 1 }
+def u2 : Entry := { segId := 2, docs := [⟨20, [1]⟩, ⟨21, [2]⟩], alive := [true, true], cursor := 1 }
+def stU : State :=
+  { queue := [⟨5, 1⟩], committed := [], uncommitted := [u1, u2], committedOpstamp := 0,
+    published := [], epoch := 0 }
+def rU : Running := { sources := [1, 2], merged := mergeEntries [⟨5, 1⟩] [u1, u2] 7 3, epoch := 0 }
+
+example : (pendingUids (endMerge stU rU) 9).Perm (pendingUids stU 9) :=
+  (C04_merge_invisible_uncommitted stU rU [u1, u2] 7 3 1 9 rfl (by decide)
+    (by intro e he; simp at he; rcases he with rfl | rfl <;> decide)
+    (by decide) (by decide) (by decide) (by decide) (by decide) (by decide)).2
+example : pendingUids stU 9 = [10, 20, 21] := by decide
 
 /-- The reconciliation branch of `end_merge` is needed: a delete committed while the merge was
 running is reflected in the published merged segment with it, and lost without it. -/
